@@ -119,7 +119,7 @@ fn threshold_history(acc: &mut Acc, r: &mut Rng, kind: Kind, variant: u64, steps
 }
 
 pub fn run(ctx: &Ctx) -> (CheckMeta, Acc) {
-    let n = ctx.tier.pick(8, 120);
+    let n = ctx.tier.pick(48, 1500);
     let steps = ctx.tier.pick(80, 250);
     let ph = hash_str("C15");
     let total = run_shards(ctx, 16, |sh, acc| {
